@@ -139,6 +139,7 @@ type call struct {
 	Code  string `json:"code"`
 	Form  form   `json:"form"`
 	Probe string `json:"probe,omitempty"` // known-finding key this call is a directed probe for
+	Tail  int    `json:"tail,omitempty"`  // commands with a variadic last parameter: index of the first slot in the variadic tail + 1 (0 = none)
 }
 
 func (c call) classes() []string {
@@ -150,7 +151,30 @@ func (c call) classes() []string {
 }
 
 // stem is the stable structural key of a call: "<command>:<class>,<class>…".
-func (c call) stem() string { return c.Cmd + ":" + strings.Join(c.classes(), ",") }
+func (c call) stem() string { return c.Cmd + ":" + keyClasses(c, c.classes()) }
+
+// keyClasses renders argument classes for a key: positional for the normal parameters; the
+// arguments of a variadic tail are interchangeable, so only their non-"*" classes are listed
+// (in call order, joined by "+") in one slot; trailing "*" are dropped.
+func keyClasses(c call, cls []string) string {
+	out := cls
+	if c.Tail > 0 && len(cls) >= c.Tail {
+		out = append([]string{}, cls[:c.Tail-1]...)
+		var tail []string
+		for _, x := range cls[c.Tail-1:] {
+			if x != "*" {
+				tail = append(tail, x)
+			}
+		}
+		if len(tail) > 0 {
+			out = append(out, strings.Join(tail, "+"))
+		}
+	}
+	for len(out) > 0 && out[len(out)-1] == "*" {
+		out = out[:len(out)-1]
+	}
+	return strings.Join(out, ",")
+}
 
 // code renders a call from the sources of its slots.
 func code(kind, cmd, mod string, srcs []string) string {
@@ -188,13 +212,16 @@ func mkCall(cm cmd, cls []class) call {
 		sl[i] = slot{c.Name, c.Src, benign(cm, i)}
 	}
 	c := call{Kind: "call", Cmd: cm.Name, Mod: cm.Mod, Slots: sl, Form: noForm}
+	if cm.GoFn && cm.Var {
+		c.Tail = len(cm.Args) // normal parameters = len(Args)-1, so the tail starts at slot len(Args)-1
+	}
 	c.Code = code(c.Kind, c.Cmd, c.Mod, c.srcs())
 	return c
 }
 
-// enumerate builds the sweep: arity 0..maxExh exhaustively, plus nSample seeded calls of arity
-// maxExh+1 (0 = none).
-func enumerate(tab []cmd, maxExh, nSample int, rnd *rand.Rand) (calls []call, skipped []string, nClamped int) {
+// enumerate builds the sweep: arity 0..maxExh exhaustively, the single-deviation rows of the
+// arities in devArities, plus nSample seeded calls of arity sampleArity.
+func enumerate(tab []cmd, maxExh int, devArities []int, sampleArity, nSample int, rnd *rand.Rand) (calls []call, skipped []string, nClamped int) {
 	var live []cmd
 	for _, cm := range tab {
 		if why, ok := skipCmd[cm.Name]; ok {
@@ -221,10 +248,34 @@ func enumerate(tab []cmd, maxExh, nSample int, rnd *rand.Rand) (calls []call, sk
 	for _, cm := range live {
 		rec(cm, nil, 0)
 	}
+	// single-deviation rows of the next arities: every call that differs from the benign call
+	// (a valid value in every position) in exactly one position, for every class in that position
+	for _, ar := range devArities {
+		if ar <= maxExh {
+			continue
+		}
+		for _, cm := range live {
+			for pos := 0; pos < ar; pos++ {
+				for _, p := range pool {
+					cls := make([]class, ar)
+					for j := range cls {
+						cls[j] = class{"*", benign(cm, j)}
+					}
+					cls[pos] = p
+					c := mkCall(cm, cls)
+					if clamped(cm.Name, c.classes()) {
+						nClamped++
+						continue
+					}
+					calls = append(calls, c)
+				}
+			}
+		}
+	}
 	for i := 0; i < nSample; i++ {
 		cm := live[rnd.Intn(len(live))]
 		var cls []class
-		for j := 0; j <= maxExh; j++ {
+		for j := 0; j < sampleArity; j++ {
 			cls = append(cls, pool[rnd.Intn(len(pool))])
 		}
 		c := mkCall(cm, cls)
@@ -386,7 +437,7 @@ func probeFromKey(key string, tab []cmd) (call, bool) {
 	}
 	var cs []class
 	if cls != "" {
-		for pos, n := range strings.Split(cls, ",") {
+		for pos, n := range strings.Split(strings.ReplaceAll(cls, "+", ","), ",") {
 			if n == "*" {
 				cs = append(cs, class{"*", benign(*cm, pos)})
 				continue
